@@ -1,7 +1,7 @@
 (* C01 - Histogram arithmetic is the exact convolution of independent outcomes.
    Only property theorems here; proofs are in Proofs/ArithP.v. *)
 From Coq Require Import ZArith List.
-From Dyce Require Import Base.Sums Base.Order Base.Hist Base.QcOrd Model.Arith Proofs.ArithP.
+From Dyce Require Import Base.Sums Base.Order Base.Hist Base.QcOrd Model.Arith Proofs.ArithP Proofs.ArithLawsP.
 Import ListNotations.
 Open Scope Z_scope.
 
@@ -71,6 +71,52 @@ Theorem C01_count_function_only : forall {T} (O : ord T) op a a' b b' z,
   cnt O (hmapT O op a b) z = cnt O (hmapT O op a' b') z.
 Proof. exact @hmapT_cnt_ext. Qed.
 Print Assumptions C01_count_function_only.
+
+(* "with a scalar operand (on either side) ... every outcome is relabelled": a scalar operand is the
+   one-point histogram, and the convolution with it IS the relabelling (identical lists) *)
+Theorem C01_scalar_right_is_relabelling : forall {T} (O : ord T) (op : T -> T -> T) (a : hist T) s,
+  hmapT O op a [(s, 1)] = humapT O (fun x => op x s) a.
+Proof. exact @hmapT_scalar_r. Qed.
+Print Assumptions C01_scalar_right_is_relabelling.
+Theorem C01_scalar_left_is_relabelling : forall {T} (O : ord T) (op : T -> T -> T) (b : hist T) s,
+  hmapT O op [(s, 1)] b = humapT O (fun y => op s y) b.
+Proof. exact @hmapT_scalar_l. Qed.
+Print Assumptions C01_scalar_left_is_relabelling.
+(* the algebra users rely on: commutative / associative operators give commutative / associative
+   histogram operators (identical results, not only equal distributions); relabellings compose;
+   relabelling a result is the operation with the relabelled operator; operands are mixtures *)
+Theorem C01_commutative : forall {T} (O : ord T) (op : T -> T -> T) (a b : hist T),
+  (forall x y, op x y = op y x) -> hmapT O op a b = hmapT O op b a.
+Proof. exact @hmapT_comm. Qed.
+Print Assumptions C01_commutative.
+Theorem C01_associative : forall {T} (O : ord T) (op : T -> T -> T) (a b c : hist T),
+  (forall x y u, op (op x y) u = op x (op y u)) ->
+  hmapT O op (hmapT O op a b) c = hmapT O op a (hmapT O op b c).
+Proof. exact @hmapT_assoc. Qed.
+Print Assumptions C01_associative.
+Theorem C01_relabellings_compose : forall {T} (O : ord T) (f g : T -> T) (a : hist T),
+  humapT O f (humapT O g a) = humapT O (fun x => f (g x)) a.
+Proof. exact @humapT_compose. Qed.
+Print Assumptions C01_relabellings_compose.
+Theorem C01_relabel_result : forall {T} (O : ord T) (f : T -> T) (op : T -> T -> T) (a b : hist T),
+  humapT O f (hmapT O op a b) = hmapT O (fun x y => f (op x y)) a b.
+Proof. exact @humapT_hmapT. Qed.
+Print Assumptions C01_relabel_result.
+Theorem C01_unit_operand : forall {T} (O : ord T) (op : T -> T -> T) (a : hist T) e,
+  (forall x, op x e = x) -> sasc O (keys a) -> hmapT O op a [(e, 1)] = a.
+Proof. exact @hmapT_unit_r. Qed.
+Print Assumptions C01_unit_operand.
+Theorem C01_linear_in_left_operand : forall {T} (O : ord T) (op : T -> T -> T) (a a' b : hist T) z,
+  cnt O (hmapT O op (a ++ a') b) z = cnt O (hmapT O op a b) z + cnt O (hmapT O op a' b) z.
+Proof. exact @hmapT_app_l_cnt. Qed.
+Print Assumptions C01_linear_in_left_operand.
+(* the count function of the result depends on the operands' count functions only - no sortedness
+   or reducedness of the operands needed *)
+Theorem C01_count_function_only_general : forall {T} (O : ord T) (op : T -> T -> T) a a' b b' z,
+  (forall x, cnt O a x = cnt O a' x) -> (forall y, cnt O b y = cnt O b' y) ->
+  cnt O (hmapT O op a b) z = cnt O (hmapT O op a' b') z.
+Proof. exact @hmapT_cnt_ext_gen. Qed.
+Print Assumptions C01_count_function_only_general.
 
 (* non-vacuity: 2d2 by convolution, a colliding relabelling, a raising pair with a zero count *)
 Example C01_nonvacuous :
